@@ -22,7 +22,7 @@ func init() {
 		if r.Chance(1, 5) {
 			ref := []byte(c.Get("ref"))
 			for k := 0; k < r.Range(1, 3); k++ {
-				ref[r.Intn(len(ref))] = r.Pick("--N")
+				ref[r.Intn(len(ref))] = r.Pick("--NNRYKMSWBDHV") // gaps, N, and partial ambiguity codes (some bases excluded)
 			}
 			c.Set("ref", string(ref))
 			c.Tag("reference-with-gaps")
